@@ -42,6 +42,8 @@ struct MessageAdmission<'a>(&'a ActorProperties);
 
 impl Drop for MessageAdmission<'_> {
     fn drop(&mut self) {
+        #[cfg(slawlor_ractor_verif)]
+        crate::verif_hooks::point("message_admission.fetch_sub");
         let previous = self.0.message_admission.fetch_sub(1, Ordering::AcqRel);
         debug_assert_ne!(previous & MESSAGE_ADMISSION_COUNT_MASK, 0);
         if previous & MESSAGE_ADMISSION_CLOSED != 0 && previous & MESSAGE_ADMISSION_COUNT_MASK == 1
@@ -137,6 +139,8 @@ impl ActorProperties {
     }
 
     pub(crate) fn get_status(&self) -> ActorStatus {
+        #[cfg(slawlor_ractor_verif)]
+        crate::verif_hooks::point("status.load");
         Self::status_from_u8(self.status.load(Ordering::SeqCst))
     }
 
@@ -145,6 +149,8 @@ impl ActorProperties {
     ///
     /// Returns the status observed immediately before this update.
     pub(crate) fn set_status(&self, status: ActorStatus) -> ActorStatus {
+        #[cfg(slawlor_ractor_verif)]
+        crate::verif_hooks::point("status.fetch_max");
         Self::status_from_u8(self.status.fetch_max(status as u8, Ordering::SeqCst))
     }
 
@@ -207,6 +213,8 @@ impl ActorProperties {
         let boxed = message
             .box_message(&self.id)
             .map_err(|_e| MessagingErr::InvalidActorType)?;
+        #[cfg(slawlor_ractor_verif)]
+        crate::verif_hooks::point("message.send");
         self.message
             .send(MuxedMessage::Message(boxed))
             .map_err(|e| match e.0 {
@@ -216,6 +224,8 @@ impl ActorProperties {
     }
 
     fn try_admit_message(&self) -> Option<MessageAdmission<'_>> {
+        #[cfg(slawlor_ractor_verif)]
+        crate::verif_hooks::point("message_admission.load");
         let mut state = self.message_admission.load(Ordering::Relaxed);
         loop {
             if state & MESSAGE_ADMISSION_CLOSED != 0 {
@@ -223,6 +233,8 @@ impl ActorProperties {
             }
             debug_assert!(state & MESSAGE_ADMISSION_COUNT_MASK < MESSAGE_ADMISSION_COUNT_MASK);
 
+            #[cfg(slawlor_ractor_verif)]
+            crate::verif_hooks::point("message_admission.cas");
             match self.message_admission.compare_exchange_weak(
                 state,
                 state + 1,
@@ -236,11 +248,15 @@ impl ActorProperties {
     }
 
     fn close_message_admission(&self) {
+        #[cfg(slawlor_ractor_verif)]
+        crate::verif_hooks::point("message_admission.fetch_or");
         self.message_admission
             .fetch_or(MESSAGE_ADMISSION_CLOSED, Ordering::AcqRel);
     }
 
     fn send_drain_marker(&self) -> Result<(), MessagingErr<()>> {
+        #[cfg(slawlor_ractor_verif)]
+        crate::verif_hooks::point("message_admission.load");
         let mut state = self.message_admission.load(Ordering::Acquire);
         loop {
             if state & MESSAGE_ADMISSION_CLOSED == 0
@@ -250,6 +266,8 @@ impl ActorProperties {
                 return Ok(());
             }
 
+            #[cfg(slawlor_ractor_verif)]
+            crate::verif_hooks::point("message_admission.cas");
             match self.message_admission.compare_exchange_weak(
                 state,
                 state | DRAIN_MARKER_SENT,
@@ -257,6 +275,8 @@ impl ActorProperties {
                 Ordering::Acquire,
             ) {
                 Ok(_) => {
+                    #[cfg(slawlor_ractor_verif)]
+                    crate::verif_hooks::point("message.send");
                     return self
                         .message
                         .send(MuxedMessage::Drain)
@@ -269,6 +289,8 @@ impl ActorProperties {
 
     pub(crate) fn drain(&self) -> Result<(), MessagingErr<()>> {
         self.close_message_admission();
+        #[cfg(slawlor_ractor_verif)]
+        crate::verif_hooks::point("status.fetch_update");
         let _ = self
             .status
             .fetch_update(Ordering::SeqCst, Ordering::SeqCst, |f| {
@@ -306,6 +328,8 @@ impl ActorProperties {
             #[cfg(feature = "message_span_propogation")]
             span: None,
         };
+        #[cfg(slawlor_ractor_verif)]
+        crate::verif_hooks::point("message.send");
         Ok(self
             .message
             .send(MuxedMessage::Message(boxed))
@@ -342,6 +366,8 @@ impl ActorProperties {
     /// Wait for the actor to exit
     pub(crate) async fn wait(&self) {
         let notified = self.wait_handler.notified();
+        #[cfg(slawlor_ractor_verif)]
+        crate::verif_hooks::point("wait_handler.notified");
         if self.get_status() != ActorStatus::Stopped {
             notified.await;
         }
@@ -358,8 +384,16 @@ impl ActorProperties {
     }
 
     pub(crate) fn notify_stop_listener(&self) {
+        #[cfg(slawlor_ractor_verif)]
+        crate::verif_hooks::point("wait_handler.notify_waiters");
         self.wait_handler.notify_waiters();
         // Preserve one permit for a waiter created after the actor stopped.
+        #[cfg(slawlor_ractor_verif)]
+        crate::verif_hooks::point("wait_handler.notify_one");
         self.wait_handler.notify_one();
     }
 }
+
+#[cfg(slawlor_ractor_verif)]
+#[path = "/verif/hooks/actor_properties.rs"]
+pub mod verif_probe;
